@@ -103,6 +103,22 @@ static Bytes ref_unquote(const std::string& s) {
 	return o;
 }
 
+// RFC 3986 sections 2.1-2.3: a percent-encoded text is made of unreserved characters, reserved characters and %XX triplets (two hex digits of either
+// case) and of nothing else: no NUL or other control byte, no space, no byte >= 0x7f, no '%' that does not start a triplet
+static bool uri_char(unsigned char c) { return (c >= 'A' && c <= 'Z') || (c >= 'a' && c <= 'z') || (c >= '0' && c <= '9') || (c && strchr("-._~:/?#[]@!$&'()*+,;=", c)); }
+static bool ref_pct_valid(const std::string& s) {
+	for (size_t i = 0; i < s.size(); i++) {
+		if (s[i] == '%') { if (i + 2 < s.size() && hexval(s[i + 1]) >= 0 && hexval(s[i + 2]) >= 0) i += 2; else return false; }
+		else if (!uri_char((unsigned char)s[i])) return false;
+	}
+	return true;
+}
+// bytes at which a test for "unreserved character" can go wrong: NUL (the terminator of a character set given as a C string), the first and last control,
+// 7-bit and 8-bit values, both ends of '0'-'9', 'A'-'Z', 'a'-'z' and of the single characters '-', '.', '_', '~', and their neighbours in ASCII
+static const char ABND[] = "\x00\x01,-./09:@AZ[^_`az{}~\x7f\x80\xff";
+enum { NBND = sizeof ABND - 1 };
+static bool is_bnd(unsigned char c) { return memchr(ABND, c, NBND) != 0; }
+
 // FIPS 180-4 SHA-1
 static inline uint32_t rotl(uint32_t x, int n) { return (x << n) | (x >> (32 - n)); }
 __attribute__((no_sanitize_address)) static void sha1_block(uint32_t H[5], const unsigned char* p) {
@@ -169,12 +185,15 @@ static int N_URL_STD, N_B64_LARGE;
 // witnesses of the extensions (coverage review): fixed-size Array_ overloads, bytes >= 0x80 / control bytes in the decoders, whitespace with an
 // explicit length, URL texts beyond the inline String buffer, larger dictionaries, decoder values on mixed-case text, messages >= 256 MiB, oracle self-test
 static int W_ARRN, W_ARR20, W_B64_HI, W_B64_CTL, W_HEX_HI, W_HEX_CTL, W_WS_N, W_WS_N4, W_URL_LONG, W_URL_IN16, W_Q_3, W_Q_LONGV, W_HEX_MIXED, W_URL_WELL, W_URL_LOWER;
+// witnesses of the NUL / boundary-byte extension (strings with embedded NUL bytes through the URL families, form of the encoded text)
+static int W_B64_STR_NUL, W_SHA_STR_NUL, W_B64_TXT_NUL, W_HEX_TXT_NUL;
+static int W_URL_NUL, W_URL_NUL_LONG, W_URL_BND, W_URL_FORM, W_URLDEC_NUL, W_URLDEC_RAWNUL, W_Q_NULV, W_Q_NULK, W_Q_NULK0, W_Q_NUL3, W_Q_FORM, W_Q_BND, N_Q_SAMEKEY;
 static int W_SHA_HUGE, W_SHA_HIGHWORD, W_SELF_READ, W_SELF_WRITE, W_SELF_POISON, W_SELF_GUARD;
 
 // One defect fails on millions of enumerated inputs: the first few failures of each class (counted across all processes in
 // shared memory) are written out as violations, further ones of the same class are only counted ("failures.<sig>").
 static const char* SIGS[] = { "b64_encode", "b64_decode", "b64_ws", "b64_neg_length", "b64_oob", "b64_explicit_len", "hex_encode", "hex_decode", "hex_decode_upper", "hex_neg_length", "hex_oob",
-                              "url_roundtrip", "url_decode_value", "url_oob", "query_roundtrip", "sha1", "sha1_huge_message", "sha_oob", "crash" };
+                              "url_roundtrip", "url_encode_form", "url_decode_value", "url_oob", "query_roundtrip", "sha1", "sha1_huge_message", "sha_oob", "crash" };
 enum { NSIGS = sizeof SIGS / sizeof *SIGS, PER_SIG = 4 };
 static int C_SIG[NSIGS];
 static void bad(const char* sig, const std::string& desc, const std::string& kase) {
@@ -357,11 +376,12 @@ static void check_array(const Bytes& d, const std::string& kase, bool full) {
 			vf::add(C_EVAL, 2);
 			if (!asan("b64_oob", W("encodeBase64(ByteArray)"), kase) && (vfx::S(e2) != text || vfx::S(h2) != htext))
 				bad(vfx::S(e2) != text ? "b64_encode" : "hex_encode", "encodeBase64/encodeHex(ByteArray of " + fmt("%d", n) + " bytes) = " + show(vfx::S(e2)) + " / " + show(vfx::S(h2)), kase);
-			if (memchr(d.data(), 0, d.size()) == 0 && n <= 4096) { // String form (text data)
+			if (n <= 4096) { // String form: a counted byte string, NUL bytes included
 				String s = vfx::A(d);
 				vfx::Flush fl(s);
 				String e3 = encodeBase64(s);
 				vf::add(C_EVAL);
+				if (memchr(d.data(), 0, d.size())) vf::add(W_B64_STR_NUL);
 				if (!asan("b64_oob", W("encodeBase64(String)"), kase) && vfx::S(e3) != text) bad("b64_encode", "encodeBase64(String " + show(d) + ") = " + show(vfx::S(e3)) + ", RFC 4648 text is " + show(text), kase);
 			}
 			switch (n) { // fixed-size array overloads
@@ -497,6 +517,7 @@ static void check_b64_text(const std::string& s) {
 	}
 	bool hi = false, ctl = false; // bytes outside printable ASCII: they index the upper half of the inverse table / go through the char classifiers
 	for (int i = 0; i < L; i++) { unsigned char c = s[i]; if (c >= 0x80) hi = true; if (c == 0x7f || (c < 0x20 && !is_ws((char)c))) ctl = true; }
+	bool nul = s.find('\0') != std::string::npos; // a NUL byte inside the text (String and explicit-length forms take all L bytes; the char* form sees the text up to it)
 	bool seen = false; // the witnesses count texts that reached the decoder in at least one form
 	auto witness = [&]() {
 		if (seen) return;
@@ -508,6 +529,7 @@ static void check_b64_text(const std::string& s) {
 		if (junk) vf::add(W_JUNK);
 		if (hi) vf::add(W_B64_HI);
 		if (ctl) vf::add(W_B64_CTL);
+		if (nul) vf::add(W_B64_TXT_NUL);
 	};
 	if (form_on(F_B64_STRING)) { String t = vfx::A(s); vfx::Flush fl(t); malformed_result(decodeBase64(t), "b64_oob", W("decodeBase64(String " + show(s) + ")"), kase); witness(); }
 	vfx::FlushBuf fb(s);
@@ -550,6 +572,7 @@ static void check_hex_text(const std::string& s) {
 	if (!anyhex) vf::add(W_HEX_NONHEX);
 	if (hi) vf::add(W_HEX_HI);
 	if (ctl) vf::add(W_HEX_CTL);
+	if (s.find('\0') != std::string::npos) vf::add(W_HEX_TXT_NUL);
 	if (r.length() < 0) { bad("hex_neg_length", "decodeHex(" + show(s) + ") returned length " + fmt("%d", r.length()), kase); asan_clear(); return; }
 	if (asan("hex_oob", W("decodeHex(" + show(s) + ")" + (s.size() % 2 ? fmt(" (odd length %d)", (int)s.size()) : std::string())), kase)) return;
 	Bytes d;
@@ -566,13 +589,17 @@ static void check_hex_text(const std::string& s) {
 // (U) Url::encode / decode, (Q) params / parseQuery
 // ------------------------------------------------------------------------------------------------
 // deterministic URL-ish contents of a given length: 0 only characters that are never escaped, 1 only characters that are escaped in component
-// mode (among them '%', '+', '&', '=', UTF-8 and control bytes), 2 alternating
+// mode (among them '%', '+', '&', '=', UTF-8 and control bytes), 2 alternating, 3 like 2 with a NUL byte at every third position (i = 1, 4, 7, ...; the
+// position moves with the length), 4 only NUL bytes
+enum { NUPAT = 5 };
 static Bytes url_content(size_t len, int pat) {
 	static const char PL[] = "abcXYZ019-_.~", ES[] = " %+&=/\xc3\xa9\x01\"<\xff?#";
 	Bytes b(len, 'a');
+	if (pat == 4) return Bytes(len, '\0');
 	for (size_t i = 0; i < len; i++) {
-		bool plain = pat == 0 || (pat == 2 && i % 2 == 0);
+		bool plain = pat == 0 || (pat >= 2 && i % 2 == 0);
 		b[i] = plain ? PL[(i * 5 + len) % (sizeof PL - 1)] : ES[(i * 3 + len) % (sizeof ES - 1)];
+		if (pat == 3 && (i + len) % 3 == 1) b[i] = '\0';
 	}
 	return b;
 }
@@ -590,6 +617,15 @@ static void check_url(const Bytes& s, int mode, const std::string& kase0 = std::
 	{ vfx::Flush f2(e); d = Url::decode(e); }
 	if (asan("url_oob", W("Url::decode(" + show(vfx::S(e)) + ")"), kase)) return;
 	std::string es = vfx::S(e);
+	bool nul = s.find('\0') != std::string::npos, bnd = false;
+	for (size_t i = 0; i < s.size(); i++) if (is_bnd((unsigned char)s[i])) bnd = true;
+	if (nul) { vf::add(W_URL_NUL); if (s.size() >= ASL_STR_SPACE) vf::add(W_URL_NUL_LONG); }
+	if (bnd) vf::add(W_URL_BND);
+	// the encoded text is a C string of percent-encoded form: no raw NUL (strlen == length), nothing but URL characters and %XX triplets
+	vf::add(W_URL_FORM);
+	if (strlen(*e) != (size_t)e.length() || !ref_pct_valid(es))
+		bad("url_encode_form", "Url::encode(" + show(s) + fmt(", component=%d) = ", mode) + show(es) + fmt(" (length %d, strlen %d)", e.length(), (int)strlen(*e)) +
+		    (strlen(*e) != (size_t)e.length() ? ": a raw NUL byte in the encoded text" : ": not a percent-encoded text (RFC 3986 characters and %XX only)"), kase);
 	if (es == s) vf::add(W_URL_PLAIN); else vf::add(W_URL_ESC);
 	if (mode == 1 && es != ref_quote(s, 0)) vf::add(W_URL_MODE);
 	if (es == ref_quote(s, mode)) vf::add(N_URL_STD); // informational: the statement only demands the round trip
@@ -615,22 +651,30 @@ static void check_urldec(const std::string& s) {
 		}
 	if (!well) { vf::add(W_URL_MALFORMED); return; } // a truncated or non-hex escape was met: no value is demanded for it
 	Bytes exp = ref_unquote(s);
-	if (exp.find('\0') != std::string::npos) return; // "%00": the result is not a C string (outside the assumptions)
+	if (exp.find('\0') != std::string::npos) vf::add(W_URLDEC_NUL); // "%00" or a raw NUL: an asl::String holds it like any other byte
+	if (s.find('\0') != std::string::npos) vf::add(W_URLDEC_RAWNUL);
 	// well-formed percent-coded text, hex digits of either case (own signature: the statement judges decode on encode's output, which is upper case)
 	vf::add(W_URL_WELL); if (lowerhex) vf::add(W_URL_LOWER);
 	if (vfx::S(d) != exp) bad("url_decode_value", "Url::decode(" + show(s) + ") = " + show(vfx::S(d)) + ", RFC 3986 gives " + show(exp), kase);
 }
 typedef std::vector<std::pair<Bytes, Bytes> > Entries;
 // dictionaries of 3 or 4 entries with longer values: E entries (keys: four fixed keys with separators, for E = 3 without number `sub`; variant 2: long keys
-// of distinct lengths), values of length L: variant 0 all alike, variant 1 of lengths L, L+1, 40-L (or 0), 0 with different contents
+// of distinct lengths), values of length L: variant 0 all alike, variant 1 of lengths L, L+1, 40-L (or 0), 0 with different contents; variant 3: the four
+// keys with a NUL byte after their first byte, inside, at their end and first of all (a\0z, b&\0, %\0=, \0k k), values as in variant 1. pat as in url_content
+// (3, 4: values with NUL bytes)
 static Entries query_gen(int E, int sub, int pat, int L, int var) {
 	static const char* K4[] = { "a", "b&", "%=", "k k" };
+	static const Bytes K4N[] = { Bytes("a\0z", 3), Bytes("b&\0", 3), Bytes("%\0=", 3), Bytes("\0k k", 4) };
 	Entries en;
 	int j = 0;
+	bool nulkeys = var == 3, longnul = var == 4;
+	if (var == 3) var = 1; // values as in variant 1
+	if (var == 4) var = 0; // variant 4: long keys of distinct lengths with NUL bytes in them, values as in variant 0
 	for (int i = 0; i < 4 && j < E; i++) {
 		if (E == 3 && i == sub) continue;
-		Bytes key = var == 2 ? url_content(L + 1 + i, (pat + i) % 3) : Bytes(K4[i]);
-		Bytes val = var != 1 ? url_content(L, pat) : j == 0 ? url_content(L, pat) : j == 1 ? url_content(L + 1, (pat + 1) % 3) : j == 2 ? url_content(L <= 40 ? 40 - L : 0, (pat + 2) % 3) : Bytes();
+		Bytes key = var == 2 ? url_content(L + 1 + i, (pat + i) % 3) : nulkeys ? K4N[i] : longnul ? url_content(L + 2 + i, 3) : Bytes(K4[i]);
+		int p1 = pat < 3 ? (pat + 1) % 3 : pat, p2 = pat < 3 ? (pat + 2) % 3 : 7 - pat; // patterns 3 and 4 (NUL bytes) stay among themselves
+		Bytes val = var != 1 ? url_content(L, pat) : j == 0 ? url_content(L, pat) : j == 1 ? url_content(L + 1, p1) : j == 2 ? url_content(L <= 40 ? 40 - L : 0, p2) : Bytes();
 		en.push_back(std::make_pair(key, val));
 		j++;
 	}
@@ -645,6 +689,11 @@ static void check_query(const Entries& en, const std::string& kase0 = std::strin
 	vf::add(C_EVAL);
 	std::map<Bytes, Bytes> model;
 	Dic<> d;
+	// a Dic orders and identifies its keys as C strings: two keys that agree up to their first NUL byte are one key, so such a list of entries is not a
+	// dictionary with that many entries (the smaller dictionary it collapses to is enumerated on its own): counted, nothing demanded
+	for (size_t i = 0; i < en.size(); i++)
+		for (size_t j = 0; j < i; j++)
+			if (strcmp(en[i].first.c_str(), en[j].first.c_str()) == 0) { vf::add(N_Q_SAMEKEY); return; }
 	auto ddf = [&]() { std::string x = "{"; for (size_t i = 0; i < en.size(); i++) x += (i ? ", " : "") + show(en[i].first) + ": " + show(en[i].second); return x + "}"; };
 	for (size_t i = 0; i < en.size(); i++) {
 		d[vfx::A(en[i].first)] = vfx::A(en[i].second);
@@ -653,10 +702,28 @@ static void check_query(const Entries& en, const std::string& kase0 = std::strin
 		if ((en[i].first + en[i].second).find_first_of("&=+ %") != std::string::npos) vf::add(W_Q_SPECIAL);
 		if (en[i].second.size() >= ASL_STR_SPACE) vf::add(W_Q_LONGV);
 	}
+	bool nulv = false, nulk = false, nulk0 = false, bnd = false;
+	for (size_t i = 0; i < en.size(); i++) {
+		if (en[i].second.find('\0') != std::string::npos) nulv = true;
+		if (en[i].first.find('\0') != std::string::npos) nulk = true;
+		if (en[i].first[0] == '\0') nulk0 = true;
+		for (size_t k = 0; k < en[i].first.size() + en[i].second.size(); k++) { unsigned char c = k < en[i].first.size() ? en[i].first[k] : en[i].second[k - en[i].first.size()]; if (c == 0x7f || c == 0x80 || c == 0xff || c == '^' || c == '`' || c == '{' || c == '[') bnd = true; }
+	}
+	if (nulv) vf::add(W_Q_NULV);
+	if (nulk) vf::add(W_Q_NULK);
+	if (nulk0) vf::add(W_Q_NULK0);
+	if (bnd) vf::add(W_Q_BND);
+	if ((nulv || nulk) && model.size() >= 3) vf::add(W_Q_NUL3);
+	if ((size_t)d.length() != en.size() || model.size() != en.size()) { fprintf(stderr, "c15: %s: the Dic built from %d entries with distinct keys has %d entries (harness error)\n", kase.c_str(), (int)en.size(), d.length()); _exit(2); }
 	if (model.size() >= 2) vf::add(W_Q_TWO);
 	if (model.size() >= 3) vf::add(W_Q_3);
 	String p = Url::params(d);
 	if (asan("url_oob", W("Url::params(" + ddf() + ")"), kase)) return;
+	// the query string is a C string of percent-encoded form, like the output of Url::encode it is made of
+	vf::add(W_Q_FORM);
+	if (strlen(*p) != (size_t)p.length() || !ref_pct_valid(vfx::S(p)))
+		bad("url_encode_form", "Url::params(" + ddf() + ") = " + show(vfx::S(p)) + fmt(" (length %d, strlen %d)", p.length(), (int)strlen(*p)) +
+		    (strlen(*p) != (size_t)p.length() ? ": a raw NUL byte in the query string" : ": not a percent-encoded text (RFC 3986 characters and %XX only)"), kase);
 	Dic<> q;
 	{ vfx::Flush f(p); q = Url::parseQuery(p); }
 	if (asan("url_oob", W("Url::parseQuery(" + show(vfx::S(p)) + ")"), kase)) return;
@@ -697,15 +764,22 @@ static void check_sha(const Bytes& m, const std::string& kase, bool forms) {
 		vf::add(C_EVAL);
 		if (!asan("sha_oob", W("SHA1::hash(ByteArray)"), kase) && memcmp(&h[0], exp.data(), 20) != 0) bad("sha1", fmt("SHA1::hash(ByteArray of %d bytes) = ", (int)n) + vf::hex(&h[0], 20) + ", FIPS 180-4 gives " + vf::hex(exp), kase);
 	}
-	if (memchr(m.data(), 0, n) == 0 && form_on(F_SHA)) {
+	bool hasnul = memchr(m.data(), 0, n) != 0;
+	if (form_on(F_SHA)) { // String form: the message is the String's length() bytes, NUL bytes included
 		String s = vfx::A(m);
 		vfx::Flush fl(s);
 		SHA1::Hash h = SHA1::hash(s);
+		vf::add(C_EVAL);
+		if (hasnul) vf::add(W_SHA_STR_NUL);
+		if (!asan("sha_oob", W("SHA1::hash(String)"), kase) && memcmp(&h[0], exp.data(), 20) != 0)
+			bad("sha1", fmt("SHA1::hash(String of %d bytes%s ", (int)n, hasnul ? " with NUL bytes" : "") + vf::hex(m.substr(0, 16)) + (n > 16 ? "..." : "") + ") = " + vf::hex(&h[0], 20) + ", FIPS 180-4 gives " + vf::hex(exp), kase);
+	}
+	if (!hasnul && form_on(F_SHA)) { // C string form
 		vfx::FlushBuf fb(m);
 		SHA1::Hash h2 = SHA1::hash((const char*)fb.p);
-		vf::add(C_EVAL, 2);
-		if (!asan("sha_oob", W("SHA1::hash(String / char*)"), kase) && (memcmp(&h[0], exp.data(), 20) != 0 || memcmp(&h2[0], exp.data(), 20) != 0))
-			bad("sha1", fmt("SHA1::hash(String / char* of %d bytes) = ", (int)n) + vf::hex(&h[0], 20) + " / " + vf::hex(&h2[0], 20) + ", FIPS 180-4 gives " + vf::hex(exp), kase);
+		vf::add(C_EVAL);
+		if (!asan("sha_oob", W("SHA1::hash(char*)"), kase) && memcmp(&h2[0], exp.data(), 20) != 0)
+			bad("sha1", fmt("SHA1::hash(char* of %d bytes) = ", (int)n) + vf::hex(&h2[0], 20) + ", FIPS 180-4 gives " + vf::hex(exp), kase);
 	}
 }
 
@@ -788,6 +862,9 @@ static const char A64[] = "A/+= \n!z";       // Base64 symbols, padding, whitesp
 static const char AHEX[] = "09aFg ";         // hex digits of both cases, a non-digit, whitespace
 static const char AURL[] = "a %+&=/\xc3\xa9\x01~";
 static const char AUDEC[] = "%a0Fg+\xc3";
+// the same alphabets with the NUL byte (an asl::String is counted, String(ptr, n): it holds a NUL like any other byte)
+static const char AURL0[] = "a %+&=/\xc3\xa9\x01~\0", AUDEC0[] = "%a0Fg+\xc3\0";
+enum { NURL0 = sizeof AURL0 - 1, NUDEC0 = sizeof AUDEC0 - 1 };
 static uint64_t ipow(uint64_t b, int e) { uint64_t r = 1; while (e-- > 0) r *= b; return r; }
 static std::string nth(const char* alpha, int na, int len, uint64_t idx) { // most significant symbol first
 	std::string s(len, ' ');
@@ -800,6 +877,20 @@ static std::string shortlex(const char* alpha, uint64_t idx) {
 	uint64_t n = 1;
 	while (idx >= n) { idx -= n; n *= na; len++; }
 	return nth(alpha, na, len, idx);
+}
+// alphabets given with their size (they may contain NUL)
+static std::string shortlex(const char* alpha, int na, uint64_t idx) {
+	int len = 0;
+	uint64_t n = 1;
+	while (idx >= n) { idx -= n; n *= na; len++; }
+	return nth(alpha, na, len, idx);
+}
+static uint64_t count_upto(int na, int maxlen) { uint64_t t = 0; for (int l = 0; l <= maxlen; l++) t += ipow(na, l); return t; }
+static std::vector<Bytes> strings_upto(const char* alpha, int na, int maxlen) {
+	std::vector<Bytes> v;
+	uint64_t n = count_upto(na, maxlen);
+	for (uint64_t i = 0; i < n; i++) v.push_back(shortlex(alpha, na, i));
+	return v;
 }
 static uint64_t count_upto(const char* alpha, int maxlen) { uint64_t t = 0; for (int l = 0; l <= maxlen; l++) t += ipow(strlen(alpha), l); return t; }
 static std::vector<Bytes> strings_upto(const char* alpha, int maxlen) {
@@ -868,17 +959,23 @@ static void crosscheck_python() {
 	}
 	for (size_t len = 1025; len <= 4200; len += 61) { Bytes d = content(len, 3); fprintf(f, "sha1 %s %s\n", hx(d).c_str(), hx(ref_sha1(d)).c_str()); lines++; }
 	// percent-coding: every single byte, every string <= 3 over the URL alphabet, both modes; decoding of well-formed text
-	std::vector<Bytes> us = strings_upto(AURL, 3);
+	// (alphabets with the NUL byte; every pair over the boundary bytes); the validity predicate on the quoted texts, on the raw strings and on the decoder texts
+	std::vector<Bytes> us = strings_upto(AURL0, NURL0, 3);
 	for (int c = 0; c < 256; c++) us.push_back(Bytes(1, (char)c));
-	for (size_t i = 0; i < us.size(); i++)
+	{ std::vector<Bytes> ub = strings_upto(ABND, NBND, 2); us.insert(us.end(), ub.begin() + 1, ub.end()); }
+	for (int pat = 0; pat < NUPAT; pat++) { us.push_back(url_content(40, pat)); us.push_back(url_content(41, pat)); us.push_back(url_content(42, pat)); }
+	for (size_t i = 0; i < us.size(); i++) {
 		for (int mode = 0; mode < 2; mode++) {
 			std::string q = ref_quote(us[i], mode);
 			if (ref_unquote(q) != us[i]) { fprintf(stderr, "c15: reference unquote does not invert reference quote\n"); exit(2); }
-			fprintf(f, "urlq%d %s %s\nurlu %s %s\n", mode, hx(us[i]).c_str(), hx(q).c_str(), hx(q).c_str(), hx(us[i]).c_str());
-			lines += 2;
+			if (!ref_pct_valid(q)) { fprintf(stderr, "c15: reference quote gives a text the reference validity predicate rejects\n"); exit(2); }
+			fprintf(f, "urlq%d %s %s\nurlu %s %s\nurlok %s 01\n", mode, hx(us[i]).c_str(), hx(q).c_str(), hx(q).c_str(), hx(us[i]).c_str(), hx(q).c_str());
+			lines += 3;
 		}
-	std::vector<Bytes> ud = strings_upto(AUDEC, 4); // also malformed escapes: python leaves them as they are, like ref_unquote
-	for (size_t i = 0; i < ud.size(); i++) { fprintf(f, "urlu %s %s\n", hx(ud[i]).c_str(), hx(ref_unquote(ud[i])).c_str()); lines++; }
+		fprintf(f, "urlok %s %s\n", hx(us[i]).c_str(), ref_pct_valid(us[i]) ? "01" : "00"); lines++;
+	}
+	std::vector<Bytes> ud = strings_upto(AUDEC0, NUDEC0, 4); // also malformed escapes: python leaves them as they are, like ref_unquote
+	for (size_t i = 0; i < ud.size(); i++) { fprintf(f, "urlu %s %s\nurlok %s %s\n", hx(ud[i]).c_str(), hx(ref_unquote(ud[i])).c_str(), hx(ud[i]).c_str(), ref_pct_valid(ud[i]) ? "01" : "00"); lines += 2; }
 	fclose(f);
 	std::string out = vf::scratch_dir() + "/python.out";
 	std::string cmd = "python3 /verif/tools/ref_c15.py '" + fn + "' > '" + out + "' 2>&1";
@@ -957,6 +1054,15 @@ int main(int argc, char** argv) {
 	W_URL_LONG = vf::counter("w.url_encoded_text_beyond_inline_string_buffer"); W_URL_IN16 = vf::counter("w.url_input_of_16_bytes_or_more");
 	W_Q_3 = vf::counter("w.query_three_or_more_entries"); W_Q_LONGV = vf::counter("w.query_value_of_16_bytes_or_more");
 	W_HEX_MIXED = vf::counter("w.hex_valid_with_uppercase_compared"); W_URL_WELL = vf::counter("w.url_decode_wellformed_text_value_compared"); W_URL_LOWER = vf::counter("w.url_decode_lowercase_escape_value_compared");
+	W_B64_STR_NUL = vf::counter("w.encodeBase64_String_form_with_NUL_byte"); W_SHA_STR_NUL = vf::counter("w.sha_String_form_with_NUL_byte");
+	W_B64_TXT_NUL = vf::counter("w.b64_text_with_NUL_byte_decoded"); W_HEX_TXT_NUL = vf::counter("w.hex_text_with_NUL_byte_decoded");
+	W_URL_NUL = vf::counter("w.url_input_with_NUL_byte_encoded_and_decoded"); W_URL_NUL_LONG = vf::counter("w.url_input_of_16_bytes_or_more_with_NUL_byte");
+	W_URL_BND = vf::counter("w.url_input_with_byte_at_an_edge_of_the_unreserved_set"); W_URL_FORM = vf::counter("w.url_encoded_text_judged_for_percent_encoded_form");
+	W_URLDEC_NUL = vf::counter("w.url_decode_result_with_NUL_byte_compared"); W_URLDEC_RAWNUL = vf::counter("w.url_decode_wellformed_text_with_raw_NUL_compared");
+	W_Q_NULV = vf::counter("w.query_value_with_NUL_byte"); W_Q_NULK = vf::counter("w.query_key_with_NUL_byte"); W_Q_NULK0 = vf::counter("w.query_key_starting_with_NUL_byte");
+	W_Q_NUL3 = vf::counter("w.query_three_or_more_entries_with_NUL_bytes"); W_Q_FORM = vf::counter("w.query_string_judged_for_percent_encoded_form");
+	W_Q_BND = vf::counter("w.query_key_or_value_with_DEL_0x80_0xff_or_unsafe_neighbour_of_a_letter_range");
+	N_Q_SAMEKEY = vf::counter("query_entry_lists_skipped_keys_equal_as_C_strings");
 	W_SHA_HUGE = vf::counter("w.sha_message_256MiB_or_more"); W_SHA_HIGHWORD = vf::counter("w.sha_bit_length_needs_high_count_word");
 	W_SELF_READ = vf::counter("w.selftest_asan_reports_read_overrun"); W_SELF_WRITE = vf::counter("w.selftest_asan_reports_write_overrun_as_corrupting");
 	W_SELF_POISON = vf::counter("w.selftest_asan_reports_read_of_poisoned_string_slack"); W_SELF_GUARD = vf::counter("w.selftest_guard_page_kills_overrun_of_mapped_message");
@@ -1055,15 +1161,15 @@ int main(int argc, char** argv) {
 		check_hex_text(s);
 	});
 	lap("hextexts");
-	// ---- (B) every byte value in the decoders: all 1- and 2-byte texts over 1..255; every byte 1..255 substituted at every position of three fixed texts ----
+	// ---- (B) every byte value in the decoders: all 1- and 2-byte texts over 0..255; every byte 0..255 substituted at every position of three fixed texts ----
 	{
 		std::vector<std::string> tb, th;
-		for (int a = 1; a < 256; a++) tb.push_back(std::string(1, (char)a));
-		for (int a = 1; a < 256; a++) for (int b = 1; b < 256; b++) tb.push_back(bytes2(a, b));
+		for (int a = 0; a < 256; a++) tb.push_back(std::string(1, (char)a)); // 0x00 included: a String text is counted, the explicit-length forms too
+		for (int a = 0; a < 256; a++) for (int b = 0; b < 256; b++) tb.push_back(bytes2(a, b));
 		th = tb;
 		const char* b64base[] = { "QUJDREVG", "QUJDRA==", "A!=z\n+/ " }, *hexbase[] = { "0a1b2c3d", "0a1B2c3", "0g 1-2Z!" }; // valid / padded / junk; valid / odd (7) / junk
 		for (int k = 0; k < 3; k++)
-			for (int v = 1; v < 256; v++) {
+			for (int v = 0; v < 256; v++) {
 				for (size_t pos = 0; pos < strlen(b64base[k]); pos++) { std::string t = b64base[k]; t[pos] = (char)v; tb.push_back(t); }
 				for (size_t pos = 0; pos < strlen(hexbase[k]); pos++) { std::string t = hexbase[k]; t[pos] = (char)v; th.push_back(t); }
 			}
@@ -1073,33 +1179,52 @@ int main(int argc, char** argv) {
 	lap("allbytes");
 
 	// ---- (U) percent-coding ------------------------------------------------------------------------
-	run_cases(count_upto(AURL, T ? 6 : 5) * 2, [&](uint64_t i) { check_url(shortlex(AURL, i / 2), (int)(i % 2)); });
-	run_cases((255 + 255 * 255) * 2, [&](uint64_t i) { // every single byte and every pair of bytes (NUL excluded: asl::String is a C string)
+	// (strings are counted byte strings: the NUL byte is a member of every alphabet here)
+	run_cases(count_upto(NURL0, T ? 6 : 5) * 2, [&](uint64_t i) { check_url(shortlex(AURL0, NURL0, i / 2), (int)(i % 2)); });
+	run_cases((256 + 256 * 256) * 2, [&](uint64_t i) { // every single byte and every pair of bytes, 0x00 included
 		uint64_t j = i / 2;
-		Bytes s = j < 255 ? Bytes(1, (char)(j + 1)) : bytes2((int)((j - 255) / 255) + 1, (int)((j - 255) % 255) + 1);
+		Bytes s = j < 256 ? Bytes(1, (char)j) : bytes2((int)((j - 256) >> 8), (int)((j - 256) & 255));
 		check_url(s, (int)(i % 2));
 	});
-	run_cases(count_upto(AUDEC, T ? 8 : 6), [&](uint64_t i) { check_urldec(shortlex(AUDEC, i)); });
-	{ // every length 0..Umax (far beyond the String's inline buffer) x {nothing escaped, everything escaped, alternating} x both modes
+	// every string over the bytes at which a classification "unreserved or not" can go wrong (ABND)
+	run_cases(count_upto(NBND, T ? 4 : 3) * 2, [&](uint64_t i) { check_url(shortlex(ABND, NBND, i / 2), (int)(i % 2)); });
+	{ // every byte value at every position of two texts that do not fit the String's inline buffer (nothing escaped / escapes around it)
+		const Bytes base[2] = { Bytes("abcXYZ019-_.~abcXYZ019-_"), Bytes("a b%c+d&e=f/g\xc3\xa9h\x01i~j?k#") };
+		uint64_t n0 = base[0].size() * 256, n1 = base[1].size() * 256;
+		run_cases((n0 + n1) * 2, [&](uint64_t i) {
+			uint64_t j = i / 2; int b = j < n0 ? 0 : 1; if (b) j -= n0;
+			Bytes s = base[b]; s[j / 256] = (char)(j % 256);
+			check_url(s, (int)(i % 2));
+		});
+	}
+	run_cases(count_upto(NUDEC0, T ? 7 : 6), [&](uint64_t i) { check_urldec(shortlex(AUDEC0, NUDEC0, i)); });
+	if (T) run_cases(ipow(7, 8), [&](uint64_t i) { check_urldec(nth(AUDEC, 7, 8, i)); }); // length 8 over the alphabet without NUL
+	{ // every length 0..Umax (far beyond the String's inline buffer) x {nothing escaped, everything escaped, alternating, with NUL bytes, only NUL bytes} x both modes
 		uint64_t Umax = T ? 2000 : 300;
-		run_cases((Umax + 1) * 6, [&](uint64_t i) {
-			int len = (int)(i / 6), pat = (int)(i % 6 / 2), mode = (int)(i % 2);
+		run_cases((Umax + 1) * NUPAT * 2, [&](uint64_t i) {
+			int len = (int)(i / (NUPAT * 2)), pat = (int)(i % (NUPAT * 2) / 2), mode = (int)(i % 2);
 			check_url(url_content(len, pat), mode, fmt("urlgen:%d:%d:%d", mode, pat, len));
 		});
 	}
 	lap("url");
 	// ---- (Q) query dictionaries ----------------------------------------------------------------------
 	{
-		std::vector<Bytes> keys = strings_upto(AURL, 3), vals = strings_upto(AURL, T ? 3 : 2);
+		std::vector<Bytes> keys = strings_upto(AURL0, NURL0, 3), vals = strings_upto(AURL0, NURL0, T ? 3 : 2); // NUL bytes in keys (also as first byte) and values
 		keys.erase(keys.begin()); // non-empty keys
 		run_cases(keys.size() * vals.size() + 1, [&](uint64_t i) {
 			Entries e;
 			if (i < keys.size() * vals.size()) e.push_back(std::make_pair(keys[i / vals.size()], vals[i % vals.size()])); // else: the empty dictionary
 			check_query(e);
 		});
-		std::vector<Bytes> k2 = strings_upto(AURL, 2), v2 = strings_upto(AURL, 1);
+		{ // one entry over the boundary bytes (key <= 2, value <= 1)
+			std::vector<Bytes> kb = strings_upto(ABND, NBND, 2), vb = strings_upto(ABND, NBND, 1);
+			kb.erase(kb.begin());
+			run_cases(kb.size() * vb.size(), [&](uint64_t i) { Entries e; e.push_back(std::make_pair(kb[i / vb.size()], vb[i % vb.size()])); check_query(e); });
+		}
+		std::vector<Bytes> k2 = strings_upto(AURL0, NURL0, 2), v2 = strings_upto(AURL0, NURL0, 1);
 		k2.erase(k2.begin());
-		if (T) { v2.push_back("a="); v2.push_back("&a"); v2.push_back("%2"); v2.push_back("+ "); v2.push_back("\xc3\xa9"); }
+		v2.push_back(Bytes("a\0b", 3)); v2.push_back(Bytes("\0\0", 2));
+		if (T) { v2.push_back("a="); v2.push_back("&a"); v2.push_back("%2"); v2.push_back("+ "); v2.push_back("\xc3\xa9"); v2.push_back(Bytes("=\0&", 3)); }
 		std::vector<std::pair<int, int> > pairs;
 		for (size_t i = 0; i < k2.size(); i++) for (size_t j = i + 1; j < k2.size(); j++) pairs.push_back(std::make_pair((int)i, (int)j));
 		uint64_t nv = v2.size();
@@ -1112,8 +1237,9 @@ int main(int argc, char** argv) {
 	}
 	{ // 3 and 4 entries, values (and keys) of every length 0..Qmax
 		int Qmax = T ? 120 : 40;
-		run_cases((uint64_t)5 * 3 * 3 * (Qmax + 1), [&](uint64_t i) {
-			int L = (int)(i % (Qmax + 1)), var = (int)(i / (Qmax + 1) % 3), pat = (int)(i / (Qmax + 1) / 3 % 3), sub = (int)(i / (Qmax + 1) / 9); // sub 0..3: three entries, 4: all four
+		const int NV = 5; // variants 3, 4: keys with NUL bytes; patterns 3, 4: values with NUL bytes
+		run_cases((uint64_t)5 * NUPAT * NV * (Qmax + 1), [&](uint64_t i) {
+			int L = (int)(i % (Qmax + 1)), var = (int)(i / (Qmax + 1) % NV), pat = (int)(i / (Qmax + 1) / NV % NUPAT), sub = (int)(i / (Qmax + 1) / NV / NUPAT); // sub 0..3: three entries, 4: all four
 			int E = sub == 4 ? 4 : 3;
 			check_query(query_gen(E, sub, pat, L, var), fmt("querygen:%d:%d:%d:%d:%d", E, sub, pat, L, var));
 		});
@@ -1152,10 +1278,10 @@ int main(int argc, char** argv) {
 	}
 	vf::sample("bytes:f0ff -> encodeBase64 == \"8P8=\" (RFC 4648), encodeHex == \"f0ff\" (pointer, ByteArray, String and Array_<byte,2> forms; Array_<byte,N> for N = 1,2,3,4,20), decodeBase64(String / char* / char*,n / unterminated buffer,n) and decodeHex give back f0ff");
 	vf::sample("b64ws: \"8 P\\n8\\t=\" and every other placement of <= 2 (thorough 3) of {space,LF,CR,TAB} in the texts of arrays <= 6 bytes, plus whitespace after every symbol and runs of 4-5 at the start, end and middle, each as String, char*, (char* in a longer buffer, n) and (unterminated buffer, n); CRLF/76, LF/64 and space/1 layouts for every length (explicit-length forms up to 4096 bytes)");
-	vf::sample("b64bad: every string <= 8 over \"A/+= \\n!z\" e.g. \"=====\", \"A=A=\", \"!z\\n=\"; every 1- and 2-byte string over 0x01..0xff; every byte 0x01..0xff at every position of \"QUJDREVG\", \"QUJDRA==\", \"A!=z\\n+/ \"; through decodeBase64(String), (char*), (char*, every n < strlen), (unterminated, n)");
-	vf::sample("hexbad: every string <= 8 over \"09aFg \" e.g. \"0a9\" (odd), \"0g\", \"a a\", \"0F\" (value compared); every length 0..299 of digit strings; every 1- and 2-byte string over 0x01..0xff; every byte at every position of \"0a1b2c3d\", \"0a1B2c3\", \"0g 1-2Z!\"");
-	vf::sample("url: Url::decode(Url::encode(s, mode)) for every s <= 5 over {a,space,%,+,&,=,/,0xC3,0xA9,0x01,~}, every 1- and 2-byte string, every length 0..300 x {plain, all escaped, alternating}; urldec: every string <= 6 over \"%a0Fg+\\xc3\" (value compared when every % has two hex digits)");
-	vf::sample("query: Url::parseQuery(Url::params({\"a&\": \"=\", \"%+\": \"\"})) and every other dictionary of 0, 1 (key <= 3, value <= 2) or 2 (keys <= 2, values <= 1) entries; 3 and 4 entries over keys {a, b&, %=, k k} or long keys with values of every length 0..40");
+	vf::sample("b64bad: every string <= 8 over \"A/+= \\n!z\" e.g. \"=====\", \"A=A=\", \"!z\\n=\"; every 1- and 2-byte string over 0x00..0xff; every byte 0x00..0xff at every position of \"QUJDREVG\", \"QUJDRA==\", \"A!=z\\n+/ \"; through decodeBase64(String), (char*), (char*, every n < strlen), (unterminated, n)");
+	vf::sample("hexbad: every string <= 8 over \"09aFg \" e.g. \"0a9\" (odd), \"0g\", \"a a\", \"0F\" (value compared); every length 0..299 of digit strings; every 1- and 2-byte string over 0x00..0xff; every byte at every position of \"0a1b2c3d\", \"0a1B2c3\", \"0g 1-2Z!\"");
+	vf::sample("url: Url::decode(Url::encode(s, mode)) == s and Url::encode(s, mode) is a C string of RFC 3986 characters and %XX (no raw NUL) for every s <= 5 over {a,space,%,+,&,=,/,0xC3,0xA9,0x01,~,0x00}, every 1- and 2-byte string over 0x00..0xff, every s <= 3 over 24 bytes at the edges of the unreserved set (0x00 0x01 , - . / 0 9 : @ A Z [ ^ _ ` a z { } ~ 0x7f 0x80 0xff), every byte at every position of two 24/28-byte texts, every length 0..300 x {plain, all escaped, alternating, with NUL bytes, only NUL bytes}; urldec: every string <= 6 over \"%a0Fg+\\xc3\\0\" (value compared when every % has two hex digits, %00 included)");
+	vf::sample("query: Url::parseQuery(Url::params({\"a&\": \"=\", \"%+\": \"\"})), ({\"k\\0\": \"a\\0b\"}) and every other dictionary of 0, 1 (key <= 3, value <= 2) or 2 (keys <= 2, values <= 1) entries over the 12 bytes with NUL; 1 entry over the 24 edge bytes; 3 and 4 entries over keys {a, b&, %=, k k}, {a\\0z, b&\\0, %\\0=, \\0k k} or long keys (with and without NUL) with values of every length 0..40 (with and without NUL bytes)");
 	vf::sample("sha: every message <= 2 bytes; every length 0..1024 x 5 contents; 2^k-1,2^k,2^k+1 up to 8 MiB; 65530..65600; lengths = 54..65 mod 64 near 1,2,4,8 MiB; zero messages of 2^28-1, 2^28, 2^28+1, 2^29+1 bytes (thorough: to 2^31-1)");
 	return vf::finish();
 }
